@@ -225,6 +225,49 @@ def itpWrites {α} [DecidableEq α] (names : List α) : List (α × Nat) := itpL
 def itpSource {α} [DecidableEq α] (names : List α) (n : α) : Option Nat :=
   ((itpWrites names).find? (fun p => p.1 == n)).map (·.2)
 
+/-! ### the processor and the writer as objects with state
+
+`NameMolType` is an object that can be applied to several systems in a row; the only things it
+keeps are its configuration (`deduplicate`; `meta_key` and `molname` only shape the rendering of
+the name).  The list of representatives and the group counter are LOCAL to one `run_system`.
+`write_gmx_topology` is a function: `moltype_written`, `moltype_count` and the header list are
+locals of one call.  Both are written here with explicit state so that "one application = what a
+fresh object does" is a statement about the model. -/
+
+structure Proc where
+  deduplicate : Bool
+  deriving Repr, DecidableEq
+
+/-- one `processor.run_system(system)`: new processor state and the ids handed out -/
+def procStep (shares : Mol → Mol → Bool) (p : Proc) (sys : List Mol) : Proc × List Nat :=
+  (p, nameMolTypes shares p.deduplicate sys)
+
+/-- one processor object applied to the systems in order -/
+def runHistory (shares : Mol → Mol → Bool) (p : Proc) : List (List Mol) → List (List Nat)
+  | [] => []
+  | sys :: rest =>
+    let r := procStep shares p sys
+    r.2 :: runHistory shares r.1 rest
+
+/-- what one call of `write_gmx_topology` leaves in the `.top` and which ITPs it writes -/
+structure TopOut (α : Type) where
+  groups : List (α × Nat)
+  includes : List α
+  itps : List (α × Nat)
+  deriving Repr, DecidableEq
+
+/-- state that survives a call of `write_gmx_topology`: none -/
+abbrev WriterState := Unit
+
+def writeStep {α} [DecidableEq α] (st : WriterState) (names : List α) : WriterState × TopOut α :=
+  (st, { groups := groups names, includes := includes names, itps := itpWrites names })
+
+def writeHistory {α} [DecidableEq α] (st : WriterState) : List (List α) → List (TopOut α)
+  | [] => []
+  | names :: rest =>
+    let r := writeStep st names
+    r.2 :: writeHistory r.1 rest
+
 /-! ### everything the check observes of one system -/
 
 structure SysOut where
@@ -236,6 +279,22 @@ structure SysOut where
   gro : List (List Rec)
   itp : List (List Rec)
   deriving Repr
+
+/-- the observable output of a system given the ids its molecules carry -/
+def sysOutOf (names : List Nat) (sys : List Mol) : SysOut :=
+  let top := (writeStep () names).2
+  let ws := top.itps
+  { names := names
+    groups := top.groups
+    includes := top.includes
+    src := ws
+    pdb := sys.map pdbRecords
+    gro := sys.map groRecords
+    itp := ws.map (fun p => match sys[p.2]? with | some m => itpAtoms m | Option.none => []) }
+
+/-- a history: one processor over all systems, then every system written -/
+def historyOut (close : Val → Val → Bool) (dedup : Bool) (syss : List (List Mol)) : List SysOut :=
+  (List.zip (runHistory (shareMolType close) ⟨dedup⟩ syss) syss).map (fun p => sysOutOf p.1 p.2)
 
 def sysOut (close : Val → Val → Bool) (dedup : Bool) (sys : List Mol) : SysOut :=
   let names := nameMolTypes (shareMolType close) dedup sys
